@@ -67,6 +67,34 @@ def skeletonO : OTy → OTy
   | .some t => .some (skeleton t)
 end
 
+mutual
+/-- Like `skeleton`, but remembers which lifetimes are `'static` (canonicalisation keeps those). -/
+def ltSkeleton : Ty → Ty
+  | .path al p i bs as => .path al p i bs (ltSkeletonArgs as)
+  | .ref m l t => .ref m (if l = .static then .static else .elided) (ltSkeleton t)
+  | .tuple es => .tuple (ltSkeletonTys es)
+  | .scalar s => .scalar s
+  | .slice e => .slice (ltSkeleton e)
+  | .array e n => .array (ltSkeleton e) n
+  | .rawPtr m t => .rawPtr m (ltSkeleton t)
+  | .fnPtr ins out abi u => .fnPtr (ltSkeletonIns ins) (ltSkeletonO out) abi u
+  | .generic _ => .generic ""
+def ltSkeletonArgs : GArgs → GArgs
+  | .nil => .nil
+  | .ty t r => .ty (ltSkeleton t) (ltSkeletonArgs r)
+  | .lt l r => .lt (if l = .static then .static else .inferred) (ltSkeletonArgs r)
+  | .const v r => .const v (ltSkeletonArgs r)
+def ltSkeletonTys : Tys → Tys
+  | .nil => .nil
+  | .cons t r => .cons (ltSkeleton t) (ltSkeletonTys r)
+def ltSkeletonIns : FnIns → FnIns
+  | .nil => .nil
+  | .cons _ t r => .cons none (ltSkeleton t) (ltSkeletonIns r)
+def ltSkeletonO : OTy → OTy
+  | .none => .none
+  | .some t => .some (ltSkeleton t)
+end
+
 /-- `b'` extends `b`: every binding of `b` is a binding of `b'`. -/
 def BLe (b b' : List (String × Ty)) : Prop := ∀ x v, bget b x = some v → bget b' x = some v
 
